@@ -344,6 +344,21 @@ func runC05(r *rep.Report, thorough bool) error {
 				if err != nil {
 					f.Err = err.Error()
 					r.Disagree(rep.Disagreement{Tie: "c05.statement-form-not-recognised", Input: map[string]any{"case": a.Case.ID, "func": f.Name, "sql": f.SQL, "err": f.Err}})
+					// whatever its form, the statement is executed with f.NArgs arguments: its
+					// placeholders have to be exactly $1..$n
+					seenPh := map[int]bool{}
+					maxPh := 0
+					for _, m := range customPhRe.FindAllStringSubmatch(f.SQL, -1) {
+						k, _ := strconv.Atoi(m[1])
+						seenPh[k] = true
+						if k > maxPh {
+							maxPh = k
+						}
+					}
+					if maxPh != f.NArgs || len(seenPh) != f.NArgs {
+						r.Fail(rep.Failure{Signature: "c05:placeholders-vs-arguments", What: "placeholders are not $1..$n for the n arguments passed (statement of an unrecognised form)",
+							Input: map[string]any{"case": a.Case.ID, "target": tg, "func": f.Name, "sql": wsRe.ReplaceAllString(f.SQL, " "), "nargs": f.NArgs, "sources": a.Case.Sources()}})
+					}
 					continue
 				}
 				f.Stmt = st
